@@ -445,8 +445,8 @@ func selfCheck(rule *Rule, ev *Ev) {
 
 type stats struct {
 	open, late, closed, nonmatch, ticks, lines, buckets, subsets int
-	lateContributed, tooOld, boundaryPts, boundaryTicks        int
-	multiBuckets                                                int
+	lateContributed, tooOld, boundaryPts, boundaryTicks          int
+	multiBuckets                                                 int
 }
 
 func runHistory(res *mon.Result, h History, st *stats) {
@@ -509,6 +509,9 @@ func runHistory(res *mon.Result, h History, st *stats) {
 			agg.AddMaybe(fields, ev.Val, ev.Ts)
 			// barrier: Snapshot() is answered by the goroutine that consumes the points
 			steps := 2
+			if rule.InBuf > 0 {
+				steps = 8 // a buffered point is taken with probability >= 1/2 per round trip
+			}
 			if ev.Match {
 				steps = 2000
 			}
@@ -653,7 +656,7 @@ func main() {
 		}()
 		select {
 		case <-done:
-		case <-time.After(10 * time.Minute): // >1000x the normal duration of a history (a few ms)
+		case <-time.After(3 * time.Minute): // >1000x the normal duration of a history (a few ms)
 			res.Inconclusive(fmt.Sprintf("history %d (fun %s) did not finish: a barrier never returned; run abandoned", idx, fun))
 			res.Write()
 			os.Exit(0)
